@@ -17,3 +17,5 @@ pub mod s_send;
 pub mod s_watch;
 #[cfg(kani)]
 pub mod k_kernels;
+#[cfg(kani)]
+pub mod r_exec;
